@@ -270,18 +270,30 @@ func (c *CheckCtx) contractModel(deep bool) error {
 	if err != nil {
 		return err
 	}
-	cfg := "MC_Contract.cfg"
-	if deep {
-		cfg = "MC_Contract_thorough.cfg"
-	}
-	res, err := runTLC(dir, "MC_Contract.tla", cfg, c.Workers, 40*time.Minute)
+	res, err := runTLC(dir, "MC_Contract.tla", "MC_Contract.cfg", c.Workers, 40*time.Minute)
 	if err != nil {
 		return err
 	}
 	if res.Violation {
 		return inconclusive("the contract violates %s in the specification itself", res.ViolatedBy)
 	}
-	c.model(cfg, res, true, "P_C20, P_C03, P_C05, P_Writes hold on the contract's own state machine")
+	c.model("MC_Contract.cfg", res, true, "P_C20, P_C03, P_C05, P_Writes hold on the contract's own state machine (all histories of up to 2 calls)")
+	if deep {
+		// histories of up to 6 calls are far too many to enumerate (288 choices per call): random
+		// behaviours of the same state machine, every invariant evaluated in every state
+		dir2, err := specDir(c.Sc, c.Sc.Next("mc"))
+		if err != nil {
+			return err
+		}
+		res2, err := runTLC(dir2, "MC_Contract.tla", "MC_Contract_sim.cfg", c.Workers, 40*time.Minute, "-simulate", "num=20000", "-depth", "40", "-seed", fmt.Sprint(c.Seed))
+		if err != nil {
+			return err
+		}
+		if res2.Violation {
+			return inconclusive("the contract violates %s in the specification itself (simulation)", res2.ViolatedBy)
+		}
+		c.model("MC_Contract_sim.cfg (simulation, up to 6 calls, 20000 behaviours per worker)", res2, false, "P_C20, P_C03, P_C05, P_Writes hold in every state of the sampled behaviours")
+	}
 	return nil
 }
 
